@@ -67,6 +67,8 @@ enum Op {
     VectorOps(u64, u64, u64),
     ChildrenTo(u64, i32),
     UncompactTo(u64, i32),
+    /// compact of all descendants of a cell `depth` levels down, minus one of them
+    CompactBig(u64, i32, u64),
 }
 
 fn orient(o: u8) -> Orientation {
@@ -146,6 +148,18 @@ fn exec_inner(op: &Op) -> Result<Vec<u64>, String> {
                 v.remove(i);
             }
             a5::compact(&v)?
+        }
+        Op::CompactBig(c, depth, drop) => {
+            let mut v = a5::cell_to_children(*c, Some(a5::get_resolution(*c) + *depth))?;
+            let i = (*drop as usize) % v.len();
+            v.remove(i);
+            let out = a5::compact(&v)?;
+            // (a digest keeps the comparison cheap under the interpreter)
+            let mut h: u64 = 0xcbf29ce484222325;
+            for x in &out {
+                h = (h ^ x).wrapping_mul(0x100000001b3);
+            }
+            vec![out.len() as u64, h]
         }
         Op::Lookup(lon, lat, res) => vec![a5::lonlat_to_cell(LonLat::new(f(*lon), f(*lat)), *res)?],
         Op::CellCenter(c) => {
@@ -360,6 +374,7 @@ fn main() {
     let mut max_ops: usize = usize::MAX;
     let mut list = false;
     let mut population_arg: usize = 0;
+    let mut big_arg: usize = 0;
     let mut print_refs = false;
     let mut expect: Option<u64> = None;
     let mut i = 2;
@@ -376,6 +391,10 @@ fn main() {
             "--list" => {
                 list = true;
                 i += 1;
+            }
+            "--big" => {
+                big_arg = args[i + 1].parse().unwrap_or(0);
+                i += 2;
             }
             "--population" => {
                 population_arg = args[i + 1].parse().unwrap_or(0);
@@ -395,9 +414,9 @@ fn main() {
     let mut r = R(seed ^ 0x6d697269);
     // population profile (--population N, chosen by the driver): N simultaneously alive caller threads
     let population: usize = population_arg;
-    let contention = population == 0 && seed % 3 == 2;
-    let sizes = population == 0 && !contention && seed % 5 == 3;
-    let n_threads = if contention || sizes || population > 0 { 0 } else { 2 + r.below(3) as usize };
+    let contention = population == 0 && big_arg == 0 && seed % 3 == 2;
+    let sizes = population == 0 && big_arg == 0 && !contention && seed % 5 == 3;
+    let n_threads = if contention || sizes || population > 0 || big_arg > 0 { 0 } else { 2 + r.below(3) as usize };
     // at most two threads may use the per-thread projection (its cold start dominates the cost)
     let mut tl_budget = 2;
     let mut plans: Vec<Vec<Op>> = Vec::new();
@@ -432,6 +451,25 @@ fn main() {
             let op = Op::TlForward(((t % 7) as f64 * 0.7 - 2.0).to_bits(), (0.05 + (t % 5) as f64 * 0.04).to_bits(), 0);
             plans.push(if t == 0 { vec![op.clone(), Op::TlForward((1.3f64).to_bits(), (0.21f64).to_bits(), 0), op] } else { vec![op] });
         }
+    }
+    if big_arg > 0 {
+        // Big-input profile (seeded change c13-as: a process-wide arena for inputs of 8 192 cells
+        // and more, claimed with a non-atomic flag). Two free-running threads, one call each, on
+        // DIFFERENT big arguments: whatever two such calls share without synchronisation is a data
+        // race for the detector, however narrow the window is on real hardware.
+        let d = big_arg as i32;
+        // both threads compact a big set (different ones); some executions add a second kind
+        let mut p0 = vec![Op::CompactBig(res0_cell(r.next()), d, r.next())];
+        let mut p1 = vec![Op::CompactBig(res0_cell(r.next() | 1), d, r.next())];
+        match r.below(3) {
+            0 => {}
+            1 => p1.push(Op::UncompactTo(res0_cell(r.next()), d)),
+            _ => {
+                p0.insert(0, Op::ChildrenTo(res0_cell(r.next()), d));
+                p1.insert(0, Op::UncompactTo(res0_cell(r.next()), d - 1));
+            }
+        }
+        plans = vec![p0, p1];
     }
     if contention {
         plans = contention_plans(&mut r);
@@ -487,7 +525,9 @@ fn main() {
     // reference phase: each distinct op as the first call of a brand-new thread, one at a time
     let mut distinct: Vec<Op> = Vec::new();
     for (_, op, _, _, _) in &all {
-        if !distinct.contains(op) {
+        // (big-input profile: the oracle is the data-race detector; a reference run of every big
+        // call would double the cost of the execution)
+        if big_arg == 0 && !distinct.contains(op) {
             distinct.push(op.clone());
         }
     }
